@@ -296,6 +296,35 @@ pub fn read_case(utf8: bool) -> impl Strategy<Value = ReadCase> {
     })
 }
 
+/// Large transfers in the rhythm of a pipe or socket producer: a burst that fills whatever window the helper
+/// offers (tens of KiB in one op: every call gets as much as it has room for), then a trickle of short pieces, then
+/// maybe another burst - into a destination that is empty or has tens of KiB of spare capacity.
+pub fn burst_case(utf8: bool) -> impl Strategy<Value = ReadCase> {
+    let byte = move |i: usize| if utf8 { b'a' + (i % 26) as u8 } else { (i * 7 + 3) as u8 };
+    let burst = prop_oneof![3 => 9_000usize..70_000, 1 => 70_000usize..200_000];
+    let trickle = prop::collection::vec(prop_oneof![4 => 1usize..300, 1 => 300usize..3000], 1..8);
+    (burst, trickle, prop::option::weighted(0.4, 9_000usize..50_000), prop::sample::select(vec![0u32, 0, 33, 20_000, 50_000, 150_000]), any::<bool>(), 0u8..4, 0u8..41).prop_map(move |(b1, tr, b2, cap_extra, scribble, eintr_at, init_len)| {
+        let mut script = Vec::new();
+        let mut pos = 0usize;
+        let mut push = |n: usize, script: &mut Vec<ROp>| {
+            script.push(ROp::Data(BStr((pos..pos + n).map(byte).collect())));
+            pos += n;
+        };
+        push(b1, &mut script);
+        for (k, t) in tr.iter().enumerate() {
+            if k as u8 == eintr_at {
+                script.push(ROp::Eintr);
+            }
+            push(*t, &mut script);
+        }
+        if let Some(b2) = b2 {
+            push(b2, &mut script);
+        }
+        script.push(ROp::Eof);
+        ReadCase { init: BStr((0..init_len as usize).map(|i| b'A' + (i % 26) as u8).collect()), cap_extra, scribble, script }
+    })
+}
+
 pub fn exact_case() -> impl Strategy<Value = ExactCase> {
     // target length relative to the stream: well below, just below, equal, just above
     (script(false), 0u8..8, any::<u16>(), any::<bool>()).prop_map(|(script, mode, r, scribble)| {
